@@ -2,8 +2,8 @@ SPECIFICATION Spec
 CONSTANTS
   Threads = {1}
   Dev = {}
-  CmdSet = {"continue", "pause", "next", "setBps0", "setBps1"}
-  MaxReqs = 3
+  CmdSet = {"continue", "pause", "setBps1", "stackTrace"}
+  MaxReqs = 2
   MaxQueued = 1
   MaxStops = 2
 INVARIANTS TypeOK NoDuplicateStopped NoLostStop NoStoppedAfterResume ResponseBeforeLaterStop WaitHasCause StopHasSnapshot
